@@ -3,6 +3,7 @@ import ComposeVerif.Lemmas.TravLive
 import ComposeVerif.Gen.Globals
 import ComposeVerif.Neg.C19Traversal
 import ComposeVerif.Lemmas.TravLocked
+import ComposeVerif.Props.C13
 /-!
 # C19 — the dependency-ordered traversal is free of deadlocks and terminates
 
@@ -66,6 +67,29 @@ theorem traversal_can_finish {g : Graph} {lim : Option Nat} (hg : GraphOK g) (hl
         obtain ⟨ls, s', hrun, ht⟩ := ih s1 (.step hs hst) (by omega)
         exact ⟨l :: ls, s', by simp [runL, hst, hrun], ht⟩
   exact key (mu g s) s h (Nat.le_refl _)
+
+/-- **the traversal propagates its first error** (C19's clause, from C13's `result_first_error` / `outcome_on_return`):
+    whenever `walk` has returned — every graph, limit, root selection, schedule — the value it returns is `nil` exactly
+    when no visitor failed, otherwise it is the error of the FIRST failing visit handed to the errgroup, and that visitor
+    really returned an error -/
+theorem traversal_first_error {g : Graph} {lim : Option Nat} (hg : GraphOK g) {s : St} (h : Reach g lim s) (ht : terminal s) :
+    s.firstErr = s.errExits.getLast? ∧
+    (∀ v, s.firstErr = some v → Ev.finish v true ∈ s.log) ∧
+    (s.firstErr = none ↔ ∀ v, Ev.finish v true ∉ s.log) :=
+  let r := result_first_error hg h
+  ⟨r.1, r.2.1, (outcome_on_return hg h ht).2⟩
+
+/-- **the supplied function is called exactly once per selected service** (and never for a skipped one) when the walk
+    returns without error; whatever happened, no service is visited twice and every visitor that was entered has returned
+    before `walk` returns — no visitor is still running (and still writing) after the parallel operation is over -/
+theorem traversal_calls_exactly_once {g : Graph} {lim : Option Nat} (hg : GraphOK g) {s : St} (h : Reach g lim s)
+    (ht : terminal s) :
+    (∀ v, (starts s.log).count v = (finishes s.log).count v ∧ (starts s.log).count v ≤ 1) ∧
+    (s.firstErr = none → s.extCancelled = false →
+      ∀ v ∈ g.verts, (starts s.log).count v = (if g.skip v then 0 else 1) ∧ s.status v = .visited) :=
+  ⟨(outcome_on_return hg h ht).1, fun hok hext v hv =>
+    let r := exact_counts_on_success hg h ht hok hext v hv
+    ⟨r.1, r.2.2.1⟩⟩
 
 /-- the source gives the errgroup `maxConcurrency + 1` slots, and only when a limit is set — what `slotFree` models -/
 theorem traversal_limit_is_the_sources :
